@@ -42,6 +42,13 @@ CHECKS = {
         design_ref="DESIGN.md §4 C15",
         note="Reference = CPython 3.12 eval of the same text; identity between non-singleton literals excluded; divergences attributed to rules that do not consume constant evaluation are left to C01/C02.",
     ),
+    "C17": dict(
+        technique="runtime truth-table monitor: formulas wrapped in functions go through each condition-rewriting rule; the rewritten function is read back from the rule's output and both versions are evaluated under every valuation of a box containing all constants",
+        category="exploration",
+        text="All two-atom and/or formulas over one variable (atoms v op c / c op v, 6 operators, constants 0..3, 0..5 thorough) are enumerated completely, plus two-variable and random deeper formulas; each is also embedded in 12 statement shapes that force negation (swap_if_else, fix_if_return, early_continue, De Morgan, negated comparisons); all range(a[,b[,c]]) comprehensions with one or two constant filters in a box and ~900 sum/len expressions exercise range folding and closed forms. Every rewritten function's value (or exception class) is compared with the original's for every valuation in [-2, 8]^k; a sample also goes through format_code(safe=True).",
+        design_ref="DESIGN.md §4 C17",
+        note="Integers only; == on values; the monitor sees exactly what the rule emitted (read back from its output).",
+    ),
 }
 
 NOT_YET = {}
